@@ -23,7 +23,7 @@ def grid(draw, unit, lo, hi):
 @st.composite
 def sched_specs(draw, quiet=True, adaptive=False, force_last=False,
                 empty_ok=False, all_quiet_ok=False, precisions=(None,),
-                max_procs=4, steps_ok=True, state_cond=False):
+                max_procs=4, steps_ok=True, state_cond=False, twin_ok=False):
     precision = draw(st.sampled_from(list(precisions)))
     if precision is None:
         unit = 0.25
@@ -57,6 +57,8 @@ def sched_specs(draw, quiet=True, adaptive=False, force_last=False,
             if not all_quiet_ok or draw(st.integers(0, 3)) > 0:
                 cond.append(True)       # eventually runs
         proc = {'name': 'p%d' % i, 'ts': ts, 'ts_mode': mode, 'cond': cond}
+        if twin_ok and draw(st.integers(0, 3)) == 0:
+            proc['twin'] = True
         if quiet and state_cond and cond is None and \
                 draw(st.integers(0, 3)) == 0:
             # condition read from the state (vivarium's _condition), driven
@@ -112,6 +114,10 @@ def build(spec, ctx, parallel=()):
         if p.get('cond_state'):
             params['_condition'] = ('flags', p['name'])
             topology[p['name']]['flags'] = ('flags',)
+        if p.get('twin'):
+            params['twin'] = True
+            topology[p['name']]['ta'] = ('twin',)
+            topology[p['name']]['tb'] = ('twin',)
         processes[p['name']] = kit.RecProcess(params)
     scripts = {p['name']: p['cond_state'] for p in spec['procs']
                if p.get('cond_state')}
